@@ -433,15 +433,29 @@ def rule_pipeline(ctx):
         res.missing_anchor("read_document_into_vocabulary / analyze_document")
         return res.finish(2)
 
-    def steps(fn):
+    from .shortcut import _fn_of_def
+    STEP_NAMES = ("tokenizer_function", "find_iter", "n_gram_range", "split_regex", "captures_iter", "split", "normalize", "convert_to_lowercase", "nfkd", "nfkc", "nfc", "nfd", "to_lowercase", "to_uppercase")
+
+    def steps(fn, depth=0, seen=None):
+        """tokenisation steps of fn, private helpers of the crate followed (a pipeline split over helpers is the same pipeline)"""
+        seen = seen if seen is not None else set()
         out = set()
         for y in walk(fn["body"]):
-            if y.get("k") == "MethodCall" and y["name"] in ("tokenizer_function", "find_iter", "n_gram_range", "split_regex", "captures_iter", "split", "normalize", "convert_to_lowercase", "nfkd", "nfkc", "nfc", "nfd", "to_lowercase", "to_uppercase"):
+            if y.get("k") == "MethodCall" and y["name"] in STEP_NAMES:
                 out.add(y["name"])
+            callee = None
             if y.get("k") == "Call" and strip(y["f"]).get("k") == "Path":
                 d = fn["crate"].dfn(strip(y["f"]).get("def")) or {}
                 if d.get("krate") == CRATE and d.get("name"):
                     out.add(("%s::%s" % ((d.get("self_adt") or "").split("::")[-1], d["name"])).lstrip(":"))
+                    callee = strip(y["f"]).get("def")
+            elif y.get("k") == "MethodCall" and y["name"] not in STEP_NAMES and (fn["crate"].dfn(y.get("def")) or {}).get("krate") == CRATE:
+                callee = y.get("def")
+            if callee is not None and depth < 2:
+                g = _fn_of_def(F, fn["crate"], callee)
+                if g is not None and id(g) not in seen and not (g.get("vis") or "").startswith("pub") and g["d"]["name"] not in ("transform_string",):
+                    seen.add(id(g))
+                    out |= steps(g, depth + 1, seen)
         return out
     sf, st = steps(fit[0]), steps(tra[0])
     # the string preparation is applied by the callers on the fit side
@@ -536,9 +550,56 @@ def rule_tfidf(ctx):
     return res.finish(2)
 
 
+def rule_regexfresh(ctx):
+    """The tokeniser that `fit` uses is the compiled form of the expression that is configured *now*.  The compiled form lives
+    in a cell beside the expression string and `tokenizer(..)` replaces only the string, so the check has to recompile on
+    every call - or compare the cached expression with the string.  A write that is skipped merely because the cell is
+    already filled keeps the tokeniser of an earlier configuration."""
+    from .layout import with_parents
+    res = RuleResult("R-C17-regexfresh", "check_ref compiles the tokeniser expression that is configured now: the write of the compiled form is not skipped because a compiled form is already there")
+    F = ctx.facts()
+    fns = [f for f in F.all_fns() if f["d"]["krate"] == CRATE and f["d"]["name"] == "check_ref" and (f["d"].get("self_adt") or "").endswith("CountVectorizerParams")]
+    if not fns:
+        res.missing_anchor("<CountVectorizerParams as ParamGuard>::check_ref")
+    for fn in fns:
+        c = fn["crate"]
+        r = Render(c)
+        key = fn_key(fn)
+        res.instance("%s : compiled form written" % key)
+        writes = []
+        for n, anc in with_parents(fn["body"]):
+            if n.get("k") == "Assign" and any(z.get("k") == "Field" and z["name"] == "split_regex" for z in walk(n["l"])):
+                writes.append((n, anc))
+            if n.get("k") == "MethodCall" and n["name"] in ("replace", "set", "get_or_insert_with", "insert") and any(z.get("k") == "Field" and z["name"] == "split_regex" for z in walk(n["recv"])):
+                writes.append((n, anc))
+        if not writes:
+            res.undecided("%s : write" % key, "no write of the compiled expression in check_ref (fail closed)", fn_loc(fn))
+            continue
+        bad = None
+        for n, anc in writes:
+            if n.get("k") == "MethodCall" and n["name"] == "get_or_insert_with":
+                bad = (n, "get_or_insert_with")
+                break
+            for a in anc:
+                if a.get("k") == "If":
+                    cond = a["c"]
+                    reads_cell = any(z.get("k") == "Field" and z["name"] == "split_regex" for z in walk(cond))
+                    reads_expr = any(z.get("k") == "Field" and z["name"] == "split_regex_expr" for z in walk(cond))
+                    if reads_cell and not reads_expr:
+                        bad = (n, r.e(strip(cond))[:60])
+                        break
+            if bad:
+                break
+        if bad:
+            res.violate("%s : compiled-form-kept-when-present" % key, "the compiled expression is only written under `%s`, a test of the cell itself and not of the expression string: after `tokenizer(..)` replaced the string (or on a clone), the next fit still tokenises with the old expression" % bad[1], fn_loc(fn, bad[0].get("ln")))
+        else:
+            res.ok()
+    return res.finish(1)
+
+
 def rules(tier):
     from . import carry, c04
-    return [rule_pipeline, rule_docfreq, rule_window, rule_reindex, rule_lookup, rule_row, rule_tfidf,
+    return [rule_regexfresh, rule_pipeline, rule_docfreq, rule_window, rule_reindex, rule_lookup, rule_row, rule_tfidf,
             carry.make_clone_rule("R-C17-clone", {CRATE}, 8), carry.make_setter_rule("R-C17-override", {CRATE}, 4),
-            c04.make_carry_rule("R-C17-carry", {"CountVectorizerParams"}, 4),
+            c04.make_carry_rule("R-C17-carry", {"CountVectorizerParams"}, 4), c04.make_setter_value_rule("R-C17-setter", {"CountVectorizerParams", "TfIdfVectorizer"}, 6),
             carry.make_accessor_rule("R-C17-accessor", {"linfa_preprocessing"}, 6), carry.make_ctor_rule("R-C17-ctor", {"linfa_preprocessing"}, 2)]
